@@ -11,7 +11,7 @@ from .. import sym as S
 
 ID = 'C13'
 LEVEL = 'other'
-ENGINE = 'pathsym (z3 path feasibility + validity of per-path claims)'
+ENGINE = 'pathsym (z3 path feasibility + validity of per-path claims); CrossHair 0.0.110 as independent second engine on fixed n'
 FUNCTIONS = ['generator_shared.create_string_pref', 'fileIO._get_simple_pref_list_and_ranks',
              'generator_ha_sm_hr.Generator_ha_sm_hr.create_instance', 'generator_spa.Generator_spa.create_instance',
              'fileIO._import_from_file/_create_pairs_row/_create_student_ranks/_set_lecturer_ranks']
@@ -42,6 +42,8 @@ def tasks(tier, seed):
     N, NF = (10, 7) if tier == 'quick' else (12, 9)
     out = [{'n': n, 'level': 'func'} for n in range(1, N + 1)]
     out += [{'n': n, 'level': lv} for n in range(1, NF + 1) for lv in ('hr', 'spa')]
+    # second engine: CrossHair (crosshair-tool) on the same round trip, fixed n, symbolic booleans
+    out += [{'n': n, 'level': 'crosshair'} for n in ((4, 6) if tier == 'quick' else (3, 5, 6, 8))]
     return out
 
 
@@ -113,8 +115,79 @@ def check_ranks(ranks, ties_t, n):
     return claims
 
 
+CH_TEMPLATE = '''
+import sys
+sys.path.insert(0, %(repo)r)
+from typing import List
+from matchingproblems.generator.generator_shared import create_string_pref
+from matchingproblems.solver.fileIO import _get_simple_pref_list_and_ranks
+
+ENTS = %(ents)r
+
+
+def expected(ties: List[bool]) -> List[int]:
+    out, r = [], 1
+    for i in range(len(ENTS)):
+        out.append(r)
+        if i < len(ENTS) - 1 and not ties[i]:
+            r += 1
+    return out
+
+
+def roundtrip(%(params)s) -> List[int]:
+    """
+    post: _ == expected([%(names)s])
+    """
+    ties = [%(names)s]
+    toks = create_string_pref(list(ENTS), ties)
+    simp, ranks = _get_simple_pref_list_and_ranks(toks)
+    assert simp == ENTS
+    return ranks
+'''
+
+
+def crosshair_task(task, res):
+    import subprocess
+    import sys as _sys
+    n = task['n']
+    names = ['t%d' % i for i in range(n)]
+    src = CH_TEMPLATE % {'repo': repo.REPO, 'ents': entries(n), 'params': ', '.join('%s: bool' % x for x in names), 'names': ', '.join(names)}
+    d = tempfile.mkdtemp(prefix='vf_c13ch_')
+    try:
+        path = os.path.join(d, 'h13.py')
+        with open(path, 'w') as f:
+            f.write(src)
+        r = subprocess.run([_sys.executable, '-m', 'crosshair', 'check', '--report_all', '--per_condition_timeout', '90', path],
+                           capture_output=True, text=True, cwd=d, timeout=600)
+        out = r.stdout + r.stderr
+    finally:
+        shutil.rmtree(d, ignore_errors=True)
+    res['obligations'] += 1
+    res['nontrivial'] = 1
+    res['paths'] = 1
+    import re as _re
+    if 'Confirmed over all paths' in out:
+        res['discharged'] += 1
+        res['controls']['crosshair_confirmed'] = 1
+    else:
+        m = _re.search(r'roundtrip\(([^)]*)\)', out)
+        if m and ('error' in out):
+            vals = [1 if 'True' in a else 0 for a in m.group(1).split(',')]
+            res['cex'].append({'tag': 'crosshair/roundtrip', 'what': 'CrossHair counterexample: ' + out.strip().split('\n')[-1][:200],
+                               'data': {'n': n, 'level': 'func', 'ties': vals[:n]}})
+        else:
+            # second engine inconclusive: does not affect the verdict (pathsym is the deciding engine)
+            res['obligations'] -= 1
+            res['controls']['crosshair_inconclusive'] = 1
+    res['sample'] = {'n': n, 'level': 'crosshair', 'output': out.strip()[-200:]}
+    return res
+
+
 def run_task(task):
     n, level = task['n'], task['level']
+    if level == 'crosshair':
+        return crosshair_task(task, {'obligations': 0, 'discharged': 0, 'unknown': 0, 'cex': [], 'queries': 0, 'solver_time': 0.0,
+                                     'paths': 0, 'nontrivial': 0, 'controls': {}})
     ns = repo.load('real')
     ents = entries(n)
     res = {'obligations': 0, 'discharged': 0, 'unknown': 0, 'cex': [], 'queries': 0, 'solver_time': 0.0,
@@ -260,7 +333,7 @@ def describe_task(t):
 
 
 def task_cost(t):
-    return 2 ** t['n'] * (3 if t['level'] != 'func' else 1)
+    return 2 ** t['n'] * (3 if t['level'] != 'func' else 1) * (50 if t['level'] == 'crosshair' else 1)
 
 
 if __name__ == '__main__':
